@@ -9,7 +9,10 @@ From PV Require Import lib.Sx lib.Str spec.SpecTextXml model.TextRead.
 Import ListNotations.
 Open Scope Z_scope.
 
-(* spelled character: (code point, spelling) ; spelling 0 raw, 1 named, 2 decimal, 3 &#x..; 4 &#X..; *)
+(* spelled character: (code point, spelling) ; spelling 0 raw, 1 named (a name the format itself defines), 2 decimal,
+   3 &#x..; 4 &#X..; 5 (WebVTT only) a named reference of HTML that is not one of WebVTT's own six - the current WebVTT
+   specification reads cue text with the HTML character-reference rules, so numeric and HTML named references denote
+   their character there as well *)
 Definition schar := (Z * Z)%type.
 
 Inductive item : Type :=
@@ -23,7 +26,9 @@ Inductive item : Type :=
 | IClose (k : Z)
 | IVoice (classes : list str) (name : list schar)     (* WebVTT <v.c1.c2 Name> *)
 | IStamp (s : str)                                    (* WebVTT <00:01.000> *)
-| IUnk (close : bool) (name : str).                   (* a tag WebVTT does not define *)
+| IUnk (close : bool) (name : str)                    (* a tag WebVTT does not define *)
+| ICom (s : str)                                      (* DFXP / SAMI comment <!--s--> : markup, shows nothing *)
+| IPi (s : str).                                      (* DFXP processing instruction <?s?> : markup, shows nothing *)
 
 (* formats *)
 Definition F_DFXP := 0. Definition F_SAMI := 1. Definition F_VTT := 2. Definition F_SRT := 3. Definition F_MDVD := 4.
@@ -44,6 +49,8 @@ Fixpoint display_aux (items : list item) (cur : str) : list str :=
   | IVoice _ name :: t => display_aux t (cur ++ chars name ++ lit ": ")
   | IUnk close name :: t =>
       display_aux t (cur ++ lit "<" ++ (if close then lit "/" else []) ++ name ++ lit ">")
+  | ICom _ :: t => display_aux t cur
+  | IPi _ :: t => display_aux t cur
   end.
 Definition display (items : list item) : list str := display_aux items [].
 
@@ -77,9 +84,14 @@ Definition spell (fmt : Z) (sc : schar) : str :=
   let (c, sp) := sc in
   let named := match name_of c (names_for fmt) with Some n => Some (lit "&" ++ n ++ lit ";") | None => None end in
   let fallback := match named with Some e => e | None => [c] end in
-  let numeric_ok := (fmt =? F_DFXP) || (fmt =? F_SAMI) in
+  let numeric_ok := (fmt =? F_DFXP) || (fmt =? F_SAMI) || (fmt =? F_VTT) in
   if (fmt =? F_SRT) || (fmt =? F_MDVD) then [c]
   else if sp =? 1 then fallback
+  else if (sp =? 5) && (fmt =? F_VTT) then
+    match name_of c html_names with
+    | Some n => lit "&" ++ n ++ lit ";"
+    | None => if must_escape c then fallback else [c]
+    end
   else if (sp =? 2) && numeric_ok then lit "&#" ++ dec_z c ++ lit ";"
   else if (sp =? 3) && numeric_ok then lit "&#x" ++ hex_of false c ++ lit ";"
   else if (sp =? 4) && numeric_ok then lit "&#X" ++ hex_of true c ++ lit ";"
@@ -100,13 +112,24 @@ Definition tag_of (fmt k : Z) : str * list (str * str) :=
     else if k =? 3 then (lit "span", [(lit "style", lit "font-style:italic;")])
     else (lit "span", [(lit "class", lit "hl")])
   else
+    (* WebVTT: k mod 10 = the tag, k / 10 = the shape of the start tag (vtt_annot) *)
+    let k := k mod 10 in
     if k =? 0 then (lit "i", []) else if k =? 1 then (lit "b", []) else if k =? 2 then (lit "u", [])
     else if k =? 3 then (lit "c", []) else if k =? 4 then (lit "ruby", []) else if k =? 5 then (lit "rt", [])
     else if k =? 6 then (lit "lang", []) else (lit "v", []).
 
-(* WebVTT start-tag annotations: <c.yellow>, <lang en> *)
+(* WebVTT start tags: every tag may carry classes (.a.b) and, after a space or a TAB, an annotation.
+   shape k / 10: 0 the usual one (<c.yellow.bg_blue>, <lang en-GB>, others bare); 1 bare; 2 one class; 3 space + annotation;
+   4 TAB + annotation; 5 classes + space + annotation.  <v ...> with an annotation is a voice tag (IVoice), so the v tag
+   written through IOpen never gets one. *)
 Definition vtt_annot (k : Z) : str :=
-  if k =? 3 then lit ".yellow.bg_blue" else if k =? 6 then lit " en-GB" else [].
+  let t := k mod 10 in let v := k / 10 in
+  if v =? 0 then (if t =? 3 then lit ".yellow.bg_blue" else if t =? 6 then lit " en-GB" else [])
+  else if v =? 2 then lit ".loud"
+  else if (v =? 3) && negb (t =? 7) then lit " en"
+  else if (v =? 4) && negb (t =? 7) then 9 :: lit "en x"
+  else if v =? 5 then (if t =? 7 then lit ".a.b-c" else lit ".a.b-c some words")
+  else [].
 
 Definition attrs_text (a : list (str * str)) : str :=
   concat (map (fun kv => lit " " ++ fst kv ++ lit "=""" ++ snd kv ++ lit """") a).
@@ -134,6 +157,8 @@ Definition ser_item (fmt : Z) (it : item) : str :=
       else []
   | IStamp s => if fmt =? F_VTT then lit "<" ++ s ++ lit ">" else []
   | IUnk close name => if fmt =? F_VTT then lit "<" ++ (if close then lit "/" else []) ++ name ++ lit ">" else []
+  | ICom s => if (fmt =? F_DFXP) || (fmt =? F_SAMI) then lit "<!--" ++ s ++ lit "-->" else []
+  | IPi s => if fmt =? F_DFXP then lit "<?" ++ s ++ lit "?>" else []
   end.
 Definition serialise (fmt : Z) (items : list item) : str := flat_map (ser_item fmt) items.
 
@@ -197,6 +222,8 @@ Fixpoint toks_aux (fmt : Z) (items : list item) (cur : str) (out : list xtok) : 
   | IBr :: t => toks_aux fmt t [] (TkEmpty (lit "br") [] :: flush_text cur out)
   | IOpen k :: t => let (n, a) := tag_of fmt k in toks_aux fmt t [] (TkOpen n (lower_attrs a) :: flush_text cur out)
   | IClose k :: t => toks_aux fmt t [] (TkClose (fst (tag_of fmt k)) :: flush_text cur out)
+  | ICom _ :: t => toks_aux fmt t [] (flush_text cur out)      (* a comment / PI is a node of its own: it ends the string *)
+  | IPi _ :: t => toks_aux fmt t [] (flush_text cur out)
   | _ :: t => toks_aux fmt t cur out
   end.
 Definition toks_of (fmt : Z) (items : list item) : list xtok := toks_aux fmt items [] [].
